@@ -986,6 +986,10 @@ class UnitQuaternion(Quaternion):
                 # UnitQuaternion(T) T is 4x4 homogeneous transformation matrix
                 self.data = [base.r2q(base.t2r(s))]
 
+            elif isinstance(s, np.ndarray) and base.isvector(s, 4):
+                # UnitQuaternion(v) v is a 4-vector that is not of unit length
+                self.data = [base.unit(base.getvector(s, 4))]
+
             elif isinstance(s, np.ndarray) and s.ndim == 2 and s.shape[1] == 4:
                 if norm:
                     self.data = [base.unit(x) for x in s]
